@@ -28,24 +28,24 @@ Proof. intros k m. unfold hmac_sha512, hmac. apply sha512_ok. Qed.
 Example hmac_sha512_tc1 :
   hmac_sha512 (repeat 11 20) (str "Hi There")
   = hexs "87aa7cdea5ef619d4ff0b4241a1d6cb02379f4e2ce4ec2787ad0b30545e17cdedaa833b7d6b8a702038b274eaea3f4e4be9d914eeb61f1702e696c203a126854".
-Proof. vm_compute. reflexivity. Qed.
+Proof. vm_check. Qed.
 
 Example hmac_sha512_tc2 :
   hmac_sha512 (str "Jefe") (str "what do ya want for nothing?")
   = hexs "164b7a7bfcf819e2e395fbe73b56e0a387bd64222e831fd610270cd7ea2505549758bf75c05a994a6d034f65f8f0e6fdcaeab1a34d4a6b4b636e070a38bce737".
-Proof. vm_compute. reflexivity. Qed.
+Proof. vm_check. Qed.
 
 Example hmac_sha512_tc3 :
   hmac_sha512 (repeat 170 20) (repeat 221 50)
   = hexs "fa73b0089d56a284efb0f0756c890be9b1b5dbdd8ee81a3655f83e33b2279d39bf3e848279a722c806b485a47e67c807b946a337bee8942674278859e13292fb".
-Proof. vm_compute. reflexivity. Qed.
+Proof. vm_check. Qed.
 
 Example hmac_sha512_tc6 :
   hmac_sha512 (repeat 170 131) (str "Test Using Larger Than Block-Size Key - Hash Key First")
   = hexs "80b24263c7c1a3ebb71493c1dd7be8b49b46d1f41b4aeec1121b013783f8f3526b56d037e05f2598bd0fd2215d6a1e5295e64f73f63f0aec8b915a985d786598".
-Proof. vm_compute. reflexivity. Qed.
+Proof. vm_check. Qed.
 
 Example hmac_sha256_tc1 :
   hmac_sha256 (repeat 11 20) (str "Hi There")
   = hexs "b0344c61d8db38535ca8afceaf0bf12b881dc200c9833da726e9376c2e32cff7".
-Proof. vm_compute. reflexivity. Qed.
+Proof. vm_check. Qed.
